@@ -888,6 +888,13 @@ func (c *evalCtx) call(x *SExpr) (*Val, error) {
 		}
 		dom, _, _, ks, _ := e.mapComps(m)
 		return bo(sSel(sSel(e.get(c.cur, dom, "(Array Int (Array "+ks+" Bool))"), args[0].T), args[1].T))
+	case "unshared":
+		// unshared(x): x is an object created by the function under verification and not yet visible
+		// to other goroutines (decided statically; false inside the callee's own verification)
+		if c.fr.callerFrame != nil && c.fr.callerFrame.isUnshared(args[0].T) {
+			return bo("true")
+		}
+		return bo("false")
 	case "allocatedBefore":
 		// the object existed when the function under verification was entered
 		return bo("(and (< 0 " + args[0].T + ") (< " + args[0].T + " $next!0))")
